@@ -24,7 +24,7 @@ RULE = ("families {daily current/legacy, billing, hourly} x baseline datasets (n
 ASSUMPTIONS = ["when several refusal reasons hold at once (e.g. disqualified and foreign timezone) any raised exception counts as refusal",
                "a model 'carries a disqualification' when model.disqualification is non-empty"]
 REQUIRED_REACH = {"event.fit": 24, "event.predict": 200, "gate.fit_refused": 6, "gate.fit_overridden": 6, "gate.predict_refused_dq": 10,
-                  "gate.predict_overridden": 10, "gate.predict_refused_foreign": 40, "gate.stored_model_events": 60, "gate.poor_fit_model": 2, "gate.poor_fit_rule_judged": 3, "gate.poor_fit_with_an_undefined_metric": 1,
+                  "gate.predict_overridden": 10, "gate.predict_refused_foreign": 40, "gate.stored_model_events": 60, "gate.poor_fit_model": 2, "gate.poor_fit_rule_judged": 3, "gate.model_object_refitted": 6, "gate.poor_fit_with_an_undefined_metric": 1,
                   "gate.unfitted": 6, "stored.disqualification_kind:missing_monthly_temperature_data": 1, "stored.disqualification_kind:incorrect_number_of_total_days": 1}
 
 VIOL = []
@@ -140,6 +140,19 @@ def run_case(spec):
                 if res is not m:
                     add("fit-returned-another-object", "fit did not return the model itself")
                 models[ign] = m
+    # ---- a model object that was fitted on ANOTHER baseline before carries the gate state of its LAST fit only ----------------
+    if defect in ("none", "too_short", "month_gap", "poor_fit") and fam.kind != "caltrack":
+        other_defect = "too_short" if defect == "none" else "none"
+        odf = defect_frame(fam, rng, tz, other_defect)
+        mo = fam.new_model(seed=spec["n"] + 1)
+        o1, _, _ = outcome_of(lambda: mo.fit(fam.baseline_data(odf), ignore_disqualification=True))
+        o2, _, e2 = outcome_of(lambda: mo.fit(copy.deepcopy(data), ignore_disqualification=True))
+        if o1 == "returned" and o2 == "returned":
+            I.reach("gate.model_object_refitted")
+            ref = models.get(True)
+            if ref is not None and names(mo.disqualification) != names(ref.disqualification):
+                add("refitted-model-carries-gate-state-of-an-earlier-fit:%s" % fam.kind, "model object fitted on a %s baseline and then on this one carries %s; a fresh object carries %s" % (
+                    "disqualified" if other_defect != "none" else "clean", names(mo.disqualification), names(ref.disqualification)), **tag)
     # unfitted model refuses to predict
     rep_df = fam.reporting_frame(rng, tz, "2019-03-01", 60, with_observed=True)
     rdata = fam.reporting_data(rep_df)
